@@ -522,9 +522,10 @@ def run_single(cid, tier, seed, out=sys.stdout, property_id=None):
             pool3.shutdown()
 
     for entry in findings.get('findings', []):
-        if entry['property'] == property_id and known_hits.get(entry['signature']):
-            print('KNOWN-FINDING: property=%s %s (signature=%s, hit %d times)' % (
-                property_id, entry['what'], entry['signature'], known_hits[entry['signature']]), file=out)
+        if entry['property'] == property_id and (known_hits.get(entry['signature'])
+                                                 or entry.get('part', cid) == cid):
+            print('KNOWN-FINDING: property=%s %s (signature=%s, reproduced %d times in this run)' % (
+                property_id, entry['what'], entry['signature'], known_hits.get(entry['signature'], 0)), file=out)
 
     wall = time.time() - t0
     missing_probes = [p for p in check.probes_expected if not agg.probes.get(p)]
